@@ -60,7 +60,7 @@ def rule_I1(ctx, F):
     # --- Ok(n), n != 0: exactly update(hasher, &buffer[..n]) with that n
     gU = guards_at(fn, U)
     ok_edge = has_guard(gU, sw(rd), 0) is not None
-    nz = any(c == ("switchnot", N) and tr == (0,) for c, tr in gU)
+    nz = guards_imply_zero(gU, N, zero=False)
     ctx.ob(ok_edge and nz, "update-on-ok-nonzero-edge", tU.get("s"), "update is dominated by the Ok(n) edge (%s) and n != 0 (%s)" % (ok_edge, nz))
     ue = val(fn.expr_call(tU))
     want = P.call("Hasher::update", P.arg("hasher"),
@@ -74,7 +74,7 @@ def rule_I1(ctx, F):
     INTR = ("call", name_ends("PartialEq>::eq"), (KIND, ("const", W(), ("variant", "Interrupted"))))
     for b, gs, e in alts:
         if e[0] == "adt" and e[2] == "Ok":
-            eof = has_guard(gs, sw(rd), 0) is not None and any(c == ("switchval", N) and tr == 0 for c, tr in gs)
+            eof = has_guard(gs, sw(rd), 0) is not None and guards_imply_zero(gs, N, zero=True)
             kinds.append("ok")
             ctx.ob(eof, "return-ok-only-at-eof", fn.blocks[b]["term"].get("s"), "Ok(..) returned on the read()==Ok(0) edge only: %s" % eof)
             tot = e[4][0]
@@ -130,12 +130,24 @@ def rule_I1(ctx, F):
                    "nonzero-read-always-updates", t.get("s"), "no path from the n != 0 edge reaches the next read or a return without update")
     # total += n
     tot_alts = None
-    for l in range(len(fn.locals)):
-        if fn.names.get(l) == "total":
-            tot_alts = [val(a) for a in fn.phi_alts(l)]
-    want_add = P.bin("Add", ("phi", W(), "total"), P.cast(N, "u64"))
+    tot_local = None
+    for b, gs, e in alts:            # the accumulator is whatever local Ok(..) carries (its name is free)
+        if e[0] == "adt" and e[2] == "Ok" and e[4] and e[4][0][0] == "phi":
+            tot_local = e[4][0][1]
+    if tot_local is not None:
+        tot_alts = [val(a) for a in fn.phi_alts(tot_local)]
+    want_add = P.bin("Add", ("phi", tot_local, W()), P.cast(N, "u64"))
     ctx.ob(tot_alts is not None and any(unify(want_add, a) is not None for a in tot_alts) and any(a == ("const", None, 0) for a in tot_alts),
            "total-accumulates-n", fn.loc, "total in {%s}" % (", ".join(show(a)[:60] for a in tot_alts) if tot_alts else "?"))
+
+
+def on_success_edge(gs, call):
+    """the guards include the success edge of the fallible `call`: the Continue arm of `call?` or the Ok arm of a match on it"""
+    br = ("call", name_has("Try>::branch"), (call,))
+    return has_guard(gs, sw(br), 0) is not None or has_guard(gs, sw(call), 0) is not None
+
+
+PURE_CALLEES = ("::len", "::is_empty", "panicking::assert_failed", "panicking::panic", "panicking::panic_fmt", "Arguments::<'a>::from_str", "Arguments::<'a>::new")
 
 
 def rule_I2(ctx, F):
@@ -147,7 +159,8 @@ def rule_I2(ctx, F):
         raise MissingAnchor("<Hasher as std::io::Write>::write")
     cs = calls_of(fn)
     ups = [c for c in cs if unify(P.call("Hasher::update", ("arg", 1, "self"), P.arg("input")), c[1]) is not None]
-    ctx.ob(len(ups) == 1 and len(cs) == 2, "write-forwards-update", fn.loc, "calls: %s" % [show(c[1]) for c in cs])
+    others = [c for c in cs if c not in ups and not any(norm_path(c[1][1]).endswith(s_) or s_ in norm_path(c[1][1]) for s_ in PURE_CALLEES)]
+    ctx.ob(len(ups) == 1 and not others, "write-forwards-update", fn.loc, "calls: %s" % [show(c[1]) for c in cs])
     e = val(fn.expr_local(0))
     want = ("adt", W(), "Ok", ("0",), (("call", name_ends("::len"), (P.arg("input"),)),))
     ctx.ob(unify(want, e) is not None, "write-returns-full-length", fn.loc, "returns %s ; required Ok(input.len())" % show(e))
@@ -166,7 +179,7 @@ def rule_I2(ctx, F):
     alts = ret_alternatives(ur)
     okv = [(gs, e) for b, gs, e in alts if e[0] == "adt" and e[2] == "Ok"]
     BR = ("call", name_has("Try>::branch"), (cw[0][1],)) if cw else W()
-    ctx.ob(len(okv) == 1 and has_guard(okv[0][0], sw(BR), 0) is not None, "update_reader-propagates-error", ur.loc,
+    ctx.ob(len(okv) >= 1 and bool(cw) and all(on_success_edge(g_, cw[0][1]) for g_, e_ in okv), "update_reader-propagates-error", ur.loc,
            "Ok(self) only on the Continue edge of copy_wide(..)?")
 
 
@@ -309,7 +322,7 @@ def rule_I3(ctx, F):
         alts = ret_alternatives(fn)
         okv = [(gs, e) for b, gs, e in alts if e[0] == "adt" and e[2] == "Ok"]
         BO = ("call", name_has("Try>::branch"), (opens[0][1],)) if opens else W()
-        ctx.ob(len(okv) == 1 and has_guard(okv[0][0], sw(BO), 0) is not None and has_guard(okv[0][0], sw(BM), 0) is not None, "mmap-propagates-errors:%s" % name, fn.loc,
+        ctx.ob(len(okv) >= 1 and bool(opens) and all(on_success_edge(g_, opens[0][1]) and on_success_edge(g_, mmc[0][1]) for g_, e_ in okv), "mmap-propagates-errors:%s" % name, fn.loc,
                "Ok(self) only after open()? and maybe_mmap_file()? succeeded")
         BC = [c for c in cs if "Try>::branch" in c[1][1] and cw and c[1][2] == (cw[0][1],)]
         ctx.ob(len(BC) == 1, "mmap-fallback-error-propagates:%s" % name, fn.loc, "copy_wide(..)? result is branched on: %d" % len(BC))
